@@ -171,7 +171,7 @@ CLAIMED = {
        "evaluator-level statement is NOT proved: for the "
        "running code it is decided by the in-crate monitor (feature `verif`), which judges the result of every executed "
        "instruction (~140k per quick run) against that instruction's own return_type() by tag and by contents, on generated "
-       "programs, iterator pipelines pulled past exhaustion and host calls; the Spec correspondence runs on the same programs. COMPOSED TIE (stream fold-types): on 1200 generated programs per quick run that are FULL of constants, the static type the implementation reports (it checks the program as written, folds it, and answers the type of the result) equals the type the checker model assigns to the program the FOLDING model (Model/Fold, proved semantics-preserving in Thm/C04Fold) answers, and the verdicts on the program as written agree; this carries the checker-model tie from constant-free programs to programs with constants and closes the chain implementation type = tyS (fold p), value = Spec p = Spec (fold p), which lies in tyS (fold p).",
+       "programs, iterator pipelines pulled past exhaustion and host calls; the Spec correspondence runs on the same programs. COMPOSED TIE (stream fold-types): on 1200 generated programs per quick run that are FULL of constants, the static type the implementation reports (it checks the program as written, folds it, and answers the type of the result) equals the type the checker model assigns to the program the FOLDING model (Model/Fold, proved semantics-preserving in Thm/C04Fold) answers, and the verdicts on the program as written agree; this carries the checker-model tie from constant-free programs to programs with constants and closes the chain implementation type = tyS (fold p), value = Spec p = Spec (fold p), which lies in tyS (fold p) - the last two steps are the theorem folded_program_sound (Thm/C01Fold: foldProgram_correct composed with program_outcome).",
   note="Lean kernel; stage-1 theorems are about the hand models Ty / Val.hasTy / Spec.binScalar (tied by the type, scalar and prog "
        "streams); functions and cells are outside matches_sound_partial; the monitor is code added to /repo under the guard and "
        "exempts the three placeholder-typed helper closures (MAP, FILTER, ITER bodies).",
